@@ -129,5 +129,5 @@ MANIFEST = {
             "C16_walker_sees_every_namespace_field certifies on the regenerated schema that the names reported to the policy are exactly the descriptor-tagged namespace fields at every path incl. event "
             "blobs; C16_list_filter_* characterise the ListNamespaces filter. The real isNamespaceAccessAllowed and Intercept are compared with a descriptor-driven reference on random populated "
             "requests of every request type (incl. JSON-encoded blobs), and an end-to-end script checks translation-before-check, bypass-header independence and the list filter on a running proxy.",
-    "note": "Empty namespace strings are refused too (stricter than the property). ListNamespaces with a nil NamespaceInfo in the upstream response would panic (observation, outside the property).",
+    "note": "The namespace-list filter is run end to end on every arrangement of allowed / disallowed names up to length 4; a forbidden name is placed at every path of every request type. Empty namespace strings are refused too (stricter than the property). ListNamespaces with a nil NamespaceInfo in the upstream response would panic (observation, outside the property).",
 }
